@@ -190,6 +190,41 @@ theorem table_print_reads_back {rows : List UnitRow} {pp : PrefixParser}
 /-! ### non-vacuity: a concrete session (`metre`/`m` with metric prefixes, `byte`/`B` with both kinds, a variable,
 a rejected clashing definition) meets the hypotheses, and the conclusions compute. -/
 
+/-- **Shadowing is exact.**  A parameter or where-variable `x` registered with `add_shadowing_identifier` changes how
+the string `x` itself is read (it becomes a plain identifier) and nothing else: every other string — in particular
+a prefixed form of a unit named `x`, `kilometer` under a parameter `meter` — is read exactly as before.  (numbat's
+type checker used to look such a unit up under the shadowed name; repaired by 83b9c17.) -/
+theorem shadowing_is_exact {pp pp' : PrefixParser} {x s : Str}
+    (h : addShadowingIdentifier pp x = .ok pp') (hs : s ≠ x) : parse pp' s = parse pp s := by
+  unfold addShadowingIdentifier at h
+  split at h
+  · cases h
+  · cases h
+    have hc : (insertOther pp.others x).contains s = pp.others.contains s := by
+      unfold insertOther
+      split
+      · rfl
+      · simp only [List.contains_cons]
+        have : (s == x) = false := by simpa using hs
+        simp [this]
+    unfold parse
+    simp only [hc]
+
+/-- … and the shadowed name itself is an identifier -/
+theorem shadowed_name_is_identifier {pp pp' : PrefixParser} {x : Str}
+    (h : addShadowingIdentifier pp x = .ok pp') : parse pp' x = .identifier x := by
+  unfold addShadowingIdentifier at h
+  split at h
+  · cases h
+  · cases h
+    have hc : (insertOther pp.others x).contains x = true := by
+      unfold insertOther
+      split
+      · assumption
+      · simp
+    unfold parse
+    simp only [hc, if_true]
+
 section Examples
 
 /-- `@metric_prefixes @aliases(m: short) unit meter`, `@metric_prefixes @binary_prefixes @aliases(B: short) unit byte`,
@@ -261,6 +296,12 @@ example : badRow.canonReadsBack = false := by decide +kernel
 example : (match registerRows PrefixParser.new [badRow] with
     | .ok pp => some (parse pp (displayUnitFactor (.metric 3) badRow.canon))
     | .error _ => none) = some (.identifier [107, 105, 108, 111, 122, 113]) := by
+  decide +kernel
+
+/-- non-vacuity of `shadowing_is_exact`: with a parameter named `m`, `m` is an identifier but `km` is still the unit -/
+example : (match addShadowingIdentifier samplePP [109] with
+    | .ok pp => some (parse pp [109], parse pp [107, 109])
+    | .error _ => none) = some (.identifier [109], .unit (.metric 3) [109] [109, 101, 116, 101, 114]) := by
   decide +kernel
 
 end Examples
